@@ -1,1 +1,2 @@
 pub mod decode;
+pub mod encode;
